@@ -30,7 +30,12 @@ INITIAL_MISSED = {"C01-m1", "C03-m2", "C04-m1", "C05-m1", "C08-m1", "C09-m1", "C
                   "C16-r8m2", "C16-r8m3", "C18-r8m3", "C19-r8m1", "C19-r8m3", "C20-r8m1", "C20-r8m2", "C20-r8m3",
                   # ninth round (refactorings gone slightly wrong)
                   "C03-r9m1", "C03-r9m3", "C04-r9m1", "C04-r9m3", "C05-r9m2", "C06-r9m2", "C08-r9m2", "C10-r9m1", "C15-r9m1",
-                  "C20-r9m1"}
+                  "C20-r9m1",
+                  # tenth round (data-dependent rarities)
+                  "C01-r10m2", "C01-r10m3", "C02-r10m2", "C02-r10m3", "C04-r10m1", "C04-r10m3", "C05-r10m2", "C05-r10m3", "C06-r10m2",
+                  "C06-r10m3", "C07-r10m2", "C08-r10m1", "C09-r10m1", "C09-r10m2", "C09-r10m3", "C10-r10m3", "C11-r10m1", "C11-r10m2",
+                  "C11-r10m3", "C12-r10m1", "C12-r10m2", "C13-r10m2", "C14-r10m2", "C15-r10m1", "C15-r10m2", "C16-r10m1", "C16-r10m2",
+                  "C18-r10m3", "C19-r10m2"}
 # --seed N: run at another VERIF_SEED and only print the verdicts (meta.json untouched) - finds catches that depend on luck
 args = sys.argv[1:]
 seed = None
@@ -48,7 +53,10 @@ for name in sorted(os.listdir(os.path.join(VERIF, "seeded"))):
     if meta.get("superseded"):
         print(name, "SKIPPED (superseded: see meta.json)", flush=True)
         continue
-    prop = meta["property"]
+    if meta.get("unreached"):
+        print(name, "UNREACHED (documented limit: see meta.json)", flush=True)
+        continue
+    prop = meta.get("checked_by", meta["property"])
     t0 = time.time()
     p = subprocess.run([os.path.join(VERIF, "tools/mutant.py"), "check", prop, os.path.join(d, "patch.diff"), "--tier", "quick"] + (["--seed", seed] if seed else []),
                        stdout=subprocess.PIPE, stderr=subprocess.STDOUT, text=True)
